@@ -93,6 +93,10 @@ def float_table(texts):
                 tbl[piece] = repr(float(piece))
             except (ValueError, OverflowError):
                 tbl[piece] = None
+    # renderings are parsed again by the sorter codec and by round trips: close the table under repr
+    for r in [v for v in tbl.values() if v is not None]:
+        if r not in tbl:
+            tbl[r] = repr(float(r))
     return tbl
 
 
